@@ -16,7 +16,7 @@ def C(tech, text, ref, engine):
 
 CLAIMS = {
     "C02": C("differential testing vs std slice indexing: exhaustive small-bound enumeration + seeded proptest",
-             "Every (length, index, index) combination over the stated index set (incl. the usize::MAX / isize::MAX neighbourhoods, start>end) and five element types (u8,u64,(),String,[u8;3]) is compared by address and length with std's get/get(range)/split_at/try_from/as_chunks; _mut variants are written through and the written range checked.",
+             "Every (length, index, index) combination over the stated index set (incl. the usize::MAX / isize::MAX neighbourhoods, start>end) and element types u8,u64,(),String,[u8;3],[u64;9], a 32-byte-aligned struct and huge ZSTs (lengths and const chunk sizes up to usize::MAX, lengths congruent to small values modulo 2^8/2^16/2^32) is compared by address and length with std's get/get(range)/split_at/try_from/as_chunks; _mut variants are written through and the written range checked.",
              "DESIGN.md §3 C02", "harness/src/bin/c02.rs"),
     "C03": C("differential testing vs std str indexing with expected-panic predicate: exhaustive enumeration + seeded proptest",
              "All strings up to 5-6 chars over one char of each UTF-8 length plus boundary scalars, x all byte indices (incl. beyond len, usize::MAX) x all pairs: fallible getters == str::get, boundary predicate == is_char_boundary, clamping variants return std's sub-string (by address) and panic exactly when an in-range index is inside a char.",
@@ -29,10 +29,10 @@ CLAIMS = {
              "DESIGN.md §3 C05, §9.2", "harness/src/bin/c05.rs, progs/gen_deep.py"),
     "C07": C("complete enumeration of char/u32 conversions + model-based history testing of chars/char_indices vs std",
              "Every char through encode_utf8 and every u32 < 0x120000 through from_u32 (complete); all strings up to 5-6 chars over one char per UTF-8 length x all front/back histories for chars/char_indices/their reversed types, as_str() compared by address after every step.",
-             "DESIGN.md §3 C07", "harness/src/bin/c07.rs"),
+             "DESIGN.md §3 C07, §9.7", "harness/src/bin/c07.rs, progs/gen_deep.py"),
     "C08": C("model-based history testing vs core::slice iterators: exhaustive (length,size,history) enumeration + seeded proptest",
-             "All lengths 0..=11 x sizes 1..=12 x 8 iterator kinds x {fwd,rev,rev.rev} x {u16,()} x every front/back history run past exhaustion; items compared by address with std's iterator, as_slice()/remainder() after every step, copy() independence, size 0 panics.",
-             "DESIGN.md §3 C08", "harness/src/bin/c08.rs"),
+             "All lengths 0..=11 x sizes 1..=12 x 8 iterator kinds x {fwd,rev,rev.rev} x {u16,()} x every front/back history run past exhaustion; items compared by address with std's iterator, as_slice()/remainder() after every step, copy() independence, size 0 panics; planted 40k/70k-element slices and sizes congruent to small values modulo 2^8/2^16; const evaluation of long iterations.",
+             "DESIGN.md §3 C08, §9.7", "harness/src/bin/c08.rs, progs/gen_deep.py"),
     "C09": C("model-based history testing vs core::ops range iterators: all u8/i8 pairs, boundary neighbourhoods of wider types, all histories of short ranges",
              "All 65536 (start,end) pairs of u8 and i8, boundary neighbourhoods of the 10 wider integer types and char (incl. the surrogate gap), a..b / a..=b / a.., stepped under fixed and random front/back histories through into_iter! (by value, by reference, rev, rev.rev) and for_each! (with rev()).",
              "DESIGN.md §3 C09", "harness/src/bin/c09.rs"),
@@ -52,22 +52,22 @@ CLAIMS = {
              "map!/map_!/from_fn!/from_fn_! vs std for N in 0..=6 and three element types; all ArrayBuilder op sequences up to depth 6 against a model with a magic-stamped element type; 1100+ generated programs with every kind of early exit inside the closure at every element and every closure-parameter binding form (x, x: T, mut x, ref x, ref mut x with the closure changing its parameter), whose outcome must be compile error / panic / counted loop / left the macro / fully written std-equal array; 500 (thorough 4000) generated const collect_const! items over six item types compared with std collect; thorough reruns the first two under Miri.",
              "DESIGN.md §3 C11, §9.3 F8", "harness/src/bin/c11.rs, progs/gen_closure_exits.py, progs/gen_collect.py"),
     "C13": C("stateful (operation-history) testing of Parser against its own reported offsets: exhaustive depth 1-3 + seeded proptest histories",
-             "Every Parser method with 11 pattern arguments is applied in all sequences of depth 1-2 (rich set) and depth 3 (reduced set) to ~270 originals and three base offsets, plus random histories to depth 12: after every Ok step remainder() must be original[start-base..end-base] on char boundaries nested in the previous range, after every Err the error offset/direction must name the start or end of the parser it was called on.",
-             "DESIGN.md §3 C13/C14", "harness/src/bin/c13.rs"),
+             "Every Parser method with 11 pattern arguments is applied in all sequences of depth 1-2 (rich set) and depth 3 (reduced set) to ~270 originals and three base offsets, plus random histories to depth 12: after every Ok step remainder() must be original[start-base..end-base] on char boundaries nested in the previous range, after every Err the error offset/direction must name the start or end of the parser it was called on, the Display/Debug/panic renderings of the error must carry exactly those values, and user-made errors (ParseError::other_error / with_kind) must round-trip.",
+             "DESIGN.md §3 C13/C14, §9.7", "harness/src/bin/c13.rs, harness/fuzz/fuzz_targets/c13_ops.rs, progs/gen_deep.py"),
     "C14": C("stateful differential testing of Parser operations against a std-string model, incl. whole split protocols",
              "The same histories as C13, but asserting the model: Ok/Err, yielded value and new remainder equal what strip/trim/find/split_once/integer-prefix functions compute from the previous remainder; split/rsplit/split_terminator/rsplit_terminator protocols over all strings up to 6 symbols x 7 delimiters run to their final error and compared with str::split/rsplit.",
-             "DESIGN.md §3 C13/C14", "harness/src/bin/c13.rs --property C14"),
+             "DESIGN.md §3 C13/C14, §9.7", "harness/src/bin/c13.rs --property C14, harness/fuzz/fuzz_targets/c13_ops.rs, progs/gen_deep.py"),
     "C15": C("stateful testing with a drop ledger: exhaustive consumer/builder histories, generated destructure! programs, Miri",
              "All ArrayConsumer op sequences (next/next_back/as_slice/swap/clone/drop/assert_is_empty) up to depth 5-6 and ArrayBuilder sequences over a ledger-tracked Drop type, map_!/from_fn_! with a closure panicking at every element, and 800+ generated destructure! programs (braced/tuple structs, tuples to 16, arrays with rest/..; packed, generic, ZST, nested fields; `_` positions) whose in-program ledger must show every id dropped exactly once, `_`-matched ids dropped right after the statement; thorough reruns under Miri.",
              "DESIGN.md §3 C15, §9.2", "harness/src/bin/c11.rs --property C15, progs/gen_destructure.py (+ a Miri batch of packed structs in the quick tier)"),
     "C17": C("generated compile-fail programs with minimally different controls; rustc verdicts as oracle",
-             "Nine guard families (660+ programs): each invalid invocation must be rejected by rustc and its control (offending element removed) must compile; each program is compiled alone against the konst rlib built from /repo. A failing control is a harness error (exit 2), never a violation.",
-             "DESIGN.md §3 C17", "progs/gen_reject.py"),
+             "Ten guard families (700+ programs, incl. lifetime laundering through destructure! bindings - by-value fields, rest @ .. sub-arrays, nested patterns - which is how defect F9 was found): each invalid invocation must be rejected by rustc and its control (offending element removed) must compile; each program is compiled alone against the konst rlib built from /repo. A failing control is a harness error (exit 2), never a violation.",
+             "DESIGN.md §3 C17, §9.3 F9", "progs/gen_reject.py"),
     "C18": C("differential testing of generated parser_method! programs against a reference using the same literal tokens in expression position",
-             "600+ generated literal sets (all escape kinds, line continuations, raw strings, concat!, related alternatives) for the six forms, each run on every string up to 3 chars over the literals' alphabet + concatenations through two parser constructions; branch, remainder and offsets must equal the reference; literals that rustc accepts but the macro rejects are violations too.",
+             "600+ generated literal sets (all escape kinds, line continuations, raw strings, concat!, related alternatives) for the six forms, each run on every string up to 3 chars over the literals' alphabet + concatenations through two parser constructions; branch, remainder and offsets must equal the reference; literals that rustc accepts but the macro rejects are violations too; branch bodies in every syntactic form (block, bare expression, call, nested macro, trailing comma or not), literals forwarded through caller macro_rules! as literal/expr/tt fragments, and a calling crate that shadows assert!/unreachable! and defines constants named like the macro helper items.",
              "DESIGN.md §3 C18", "progs/gen_parser_method.py"),
     "C19": C("differential testing vs std Option/Result/cmp functions with call counters + generated rebind programs with rustc verdicts",
-             "Every option::/result:: macro in every argument form on both variants and boundary payloads with fallback call counts, try_!/try_opt! vs `?`, min/max families on keyed values with identity tags; try_rebind!/rebind_if_ok! for every arity 1..=6 and position kind (complete to arity 3) compiled alone (must compile) and compared with a hand-written match on Ok and Err inputs.",
+             "Every option::/result:: macro in every argument form on both variants and boundary payloads with fallback call counts, try_!/try_opt! vs `?`, min/max families on keyed values with identity tags; try_rebind!/rebind_if_ok! for every arity 1..=6 and position kind (complete to arity 3) compiled alone (must compile) and compared with a hand-written match on Ok and Err inputs (evaluation counts of the operand included; typed, mut, ref and coercion-site let forms); every macro argument is an effectful expression whose evaluation count (and, outside min/max, order) must equal the std call.",
              "DESIGN.md §3 C19", "harness/src/bin/c19.rs, progs/gen_rebind.py"),
     "C20": C("complete enumeration of CStr inputs vs core::ffi::CStr + generated const programs for the concat/join macros vs std",
              "All byte strings up to length 7 over {0,'a',0xFF} and up to 5 over a UTF-8-relevant alphabet for the CStr constructors/views; 800+ generated const items for str_concat!/str_join!/string::from_iter!/slice_concat! (all argument forms, empty lists/pieces, multi-byte separators) compared with concat/join/collect at run time.",
@@ -117,7 +117,7 @@ def main():
              "kind_free_text": "python3 grammar-based program generators + driver: generated Rust is compiled from /repo's tree by cargo/rustc and executed (or must fail to compile); descriptors shrink by batch delta debugging"},
         ],
         "checks": checks,
-        "notes": "All checks: exit 0 held / exit 1 + VIOLATION line / exit 2 infrastructure trouble. Known findings are in /verif/known_findings.txt. Every in-process engine runs in two builds in both tiers (dev: debug assertions + overflow checks; release: neither), on a 2 MiB thread stack; the program engines have the same two profiles. Beyond their exhaustive bounds all engines share the planted families described in DESIGN.md 9.7 (single-point differences on long inputs, inputs longer than 2^16, indices / lengths / sizes congruent to small values modulo 2^8, 2^16, 2^32, one char per UTF-8 lead byte, chars differing in one encoded byte, NUL, effectful macro arguments, caller constants named like the macros' helper items, const evaluation of long inputs). tools/run_all.sh <quick|thorough> runs every check in turn; the last full thorough run on the unchanged tree took 85 min and was silent.",
+        "notes": "All checks: exit 0 held / exit 1 + VIOLATION line / exit 2 infrastructure trouble. Known findings are in /verif/known_findings.txt. Every in-process engine runs in two builds in both tiers (dev: debug assertions + overflow checks; release: neither), on a 2 MiB thread stack; the program engines have the same two profiles. Beyond their exhaustive bounds all engines share the planted families described in DESIGN.md 9.7 (single-point differences on long inputs, inputs longer than 2^16, indices / lengths / sizes congruent to small values modulo 2^8, 2^16, 2^32, one char per UTF-8 lead byte, chars differing in one encoded byte, NUL, effectful macro arguments, caller constants named like the macros' helper items, const evaluation of long inputs). tools/run_all.sh <quick|thorough> runs every check in turn; the last full thorough run on the unchanged tree took about 80 min and was silent. Every generated program is compiled inside a hostile calling crate (shadowed assert!/debug_assert!/assert_eq!/assert_ne!/unreachable!, constants named like the macros' helper items).",
         "not_applicable": na,
     }
     with open(os.path.join(VERIF, "MANIFEST.json"), "w") as f:
